@@ -177,6 +177,7 @@ type c16World struct {
 	fail      *evid.Failure
 	labels    map[string]bool
 	ambiguous map[int]bool
+	overfill  bool
 }
 
 func c16Room(r int) string { return fmt.Sprintf("room%d", r) }
@@ -283,6 +284,10 @@ func (w *c16World) do(what string, f func()) bool {
 		w.failf("c16.hub-loop-panic", "the hub loop panicked during %s: %v", what, p)
 		return false
 	case <-time.After(c16Wait):
+		if w.overfill {
+			w.failf("c16.handler-overfills-hub-queue", "%s did not return within %v: a handler queued more broadcasts than the hub's channel buffers (256) hold while the hub loop, their only consumer, was running that handler", what, c16Wait)
+			return false
+		}
 		w.failf("c16.deadlock", "%s did not return within %v (hub loop blocked)", what, c16Wait)
 		return false
 	}
@@ -524,6 +529,15 @@ func (w *c16World) apply(idx int, o c16Op) {
 		}
 		key := fmt.Sprintf("o%d", idx)
 		w.opActs.Store(key, o.Acts)
+		queued := 0
+		for _, a := range o.Acts {
+			if a.A == "bcast" || a.A == "roomcast" {
+				queued++
+			}
+		}
+		if queued > 200 {
+			w.overfill = true // never generated; only hand-written witnesses get here
+		}
 		conn := w.conns[i]
 		if !w.do(what, func() {
 			w.hub.handleMessage <- &MessageContext{Conn: conn, Message: &Message{Event: "do", Data: key, ConnectionID: conn.ID}}
